@@ -479,13 +479,17 @@ def compare(exp, obs):
 _NUM = re.compile(r'^[+-]?(0[xX][0-9a-fA-F]+|\d+)[lL]?$')
 
 
-def parse_initialiser(text):
-    """-> int, or None when the text is not a number / boolean / character literal"""
+def parse_initialiser(text, ftype=None):
+    """-> int, or None when the text is not a number / boolean / character literal. A boolean word is the value of a
+    boolean field only, and a boolean field is initialised by a boolean word only (`int x = True` / `boolean z = 0`
+    are not "the same value in the field initialiser")."""
     t = text.strip()
-    if t in ('true', 'True'):
-        return 1
-    if t in ('false', 'False'):
-        return 0
+    if t in ('true', 'True', 'false', 'False'):
+        if ftype not in (None, 'Z'):
+            return None
+        return 1 if t in ('true', 'True') else 0
+    if ftype == 'Z':
+        return None
     if _NUM.match(t):
         return int(t.rstrip('lL'), 0)
     if len(t) == 3 and t[0] == t[2] == "'":
@@ -505,7 +509,7 @@ def _cmp_source(ec, src, ext_fields, fails):
         if m is None:
             fails.append(('source:no-initialiser', '%s: no initialiser for %d in get_source()' % (w, want)))
         else:
-            got = parse_initialiser(m.group(1))
+            got = parse_initialiser(m.group(1), xf['type'])
             if got is None or got != want:
                 fails.append(('source:%s' % sgn, '%s: get_source() prints %r, encoded value is %d' % (w, m.group(0).strip(), want)))
         if ext_fields is not None:
@@ -513,7 +517,7 @@ def _cmp_source(ec, src, ext_fields, fails):
             got = None
             if txt is not None:
                 mm = re.match(r'^\s*=\s*(.*)$', txt)
-                got = parse_initialiser(mm.group(1)) if mm else None
+                got = parse_initialiser(mm.group(1), xf['type']) if mm else None
             if got is None or got != want:
                 fails.append(('source_ext:%s' % sgn, '%s: get_source_ext() FIELD_VALUE %r, encoded value is %d' % (w, txt, want)))
 
